@@ -139,6 +139,7 @@ type Interp struct {
 	timerFires int
 	realPools  bool // vx.RealPools: sourcegraph/conc pools run from source on the scheduler
 	selectAny  bool // vx.SelectAny: a select with several ready cases forks over all of them
+	pools      map[string]*[]Value // sync.Pool model: objects Put and not yet handed out again
 	syncMaps   map[string]*MapObj // sync.Map model, keyed by the address of the sync.Map
 	preempt    int  // vx.Preemptions: remaining preemptions at synchronisation operations on this path
 	preemptions int
